@@ -146,7 +146,7 @@ static void enumerate(void) {
     mc_stage("double-fault.all-pairs");
     for (int si = 0; si < ns; si++) {
         prepare_input(&S[si]); obs_t base, again; mcf_reset(); run_scenario(&S[si], &base); long K = mcf_requests(); run_scenario(&S[si], &again); long base_live = mcf_live(); (void)again;
-        if (K > (mc_thorough() ? 400 : 100)) { mc_count("double-fault.scenarios-skipped-as-too-large", 1); continue; }
+        if (K > 400) { mc_count("double-fault.scenarios-skipped-as-too-large", 1); continue; }
         for (long k1 = 1; k1 <= K; k1++) for (long k2 = k1 + 1; k2 <= K; k2++) {
             if (!mc_next()) continue;
             mc_desc("c19:%s;fail=#%ld+#%ld/%ld", S[si].name, k1, k2, K); mc_feature("%s", "allocation-failure"); mc_case_key(mc_mix(0x192, ((uint64_t)si << 40) | ((uint64_t)k1 << 20) | (uint64_t)k2)); mc_nontrivial();
